@@ -45,6 +45,19 @@ func runBoolean(entry int, ct c2.ClipType, fr c2.FillRule, subj, clip Paths) (so
 		if !c.Execute(ct, fr, &sol) {
 			panic("Execute returned false")
 		}
+	case 4:
+		// the single-path entry point AddPath (it keeps its own bookkeeping: seeded change C01-F)
+		c := c2.NewClipper64()
+		for _, p := range subj {
+			c.AddPath(p, c2.Subject, false)
+		}
+		for _, p := range clip {
+			c.AddPath(p, c2.Clip, false)
+		}
+		sol = Paths{}
+		if !c.Execute(ct, fr, &sol) {
+			panic("Execute returned false")
+		}
 	case 3:
 		// a reused engine: another operation is executed first, then the one under test
 		c := c2.NewClipper64()
